@@ -706,13 +706,9 @@ func (s *storage) append(br blob.SizedRef, r io.Reader) error {
 	}
 
 	packIdx := len(s.fds) - 1
-	if s.size > s.maxFileSize {
-		if err := s.nextPack(); err != nil {
-			return err
-		}
-	}
 	err = s.index.Set(br.Ref.String(), blobMeta{packIdx, offset, br.Size}.String())
 	if err != nil {
+		// Undo the append on the pack it was made to (before any roll-over).
 		if _, seekErr := s.writer.Seek(origOffset, io.SeekStart); seekErr != nil {
 			log.Printf("ERROR seeking back to the original offset: %v", seekErr)
 		} else if truncErr := s.writer.Truncate(origOffset); truncErr != nil {
@@ -720,8 +716,12 @@ func (s *storage) append(br blob.SizedRef, r io.Reader) error {
 		} else {
 			s.size = origOffset
 		}
+		return err
 	}
-	return err
+	if s.size > s.maxFileSize {
+		return s.nextPack()
+	}
+	return nil
 }
 
 // meta fetches the metadata for the specified blob from the index.
